@@ -262,14 +262,36 @@ def _field_of(t, name, adt):
 
 @cached
 def allocator(f):
-    c = []
-    for (b, bb, j, dst, rv, s, final) in f.field_stores(SDATA, "packet_id"):
-        if b.kind == "assoc_fn" and b.locals[0]["ty"] == "u16":
-            c.append(b.name)
-    c = sorted(set(c))
-    if len(c) != 1:
-        raise AnchorLost("id-allocator", "expected one SessionData method storing `packet_id` and returning u16, found %s" % c)
-    return f.bodies[c[0]]
+    """the identifier allocator: the SessionData method returning u16 that (transitively) writes the `packet_id`
+    counter and is the one the enqueueing operations call"""
+    cands = []
+    for b in f.bodies.values():
+        if b.kind == "assoc_fn" and roles.self_is(b, SDATA) and b.locals[0]["ty"] == "u16" and not f.in_fuzzing(b):
+            reach = f.reachable_bodies([b.name])
+            writes = False
+            for n in reach:
+                rb = f.bodies[n]
+                for (bb, j, dst, rv, s) in rb.stores():
+                    if bb in rb.reachable and any(isinstance(e, dict) and e.get("name") == "packet_id" and e.get("of") == SDATA for e in dst["proj"]):
+                        writes = True
+            if writes:
+                cands.append(b)
+    if len(cands) > 1:
+        # prefer the one called from outside SessionData (the operations), not internal helpers
+        ext = []
+        for b in cands:
+            for o in f.bodies.values():
+                if o.name == b.name or f.in_fuzzing(o):
+                    continue
+                owner = f.bodies.get(o.root, o)
+                if not roles.self_is(owner, SDATA) and calls_to(f, o, b):
+                    ext.append(b)
+                    break
+        cands = ext
+    if len(cands) != 1:
+        raise AnchorLost("id-allocator", "expected one SessionData method returning u16 that advances `packet_id` and is "
+                         "called by the operations, found %s" % [b.fn_name for b in cands])
+    return cands[0]
 
 
 @cached
